@@ -98,5 +98,6 @@ def finalize(merged, tier):
     ec.min_counter(merged, out, "op:repop_changed", 50 if q else 500)
     ec.min_counter(merged, out, "op:relabel", 500 if q else 5000)
     ec.min_counter(merged, out, "op:assign_swap", 500 if q else 5000)
+    ec.min_counter(merged, out, "op:assign_unlabelled", 300 if q else 3000)
     ec.unexpected(merged, out)
     return out
